@@ -45,6 +45,23 @@ link / compression dimensions (both families):
          data is incompressible (64 KiB-periodic SHA-256 stream) so that byte thresholds keep being crossed.
          Evidence classes comp:<name>[:<stage>|:rekeys>=1].
 
+configuration dimension `strict` (both families): strict key exchange agreed (default) | `strict_kex=False` on the tested
+side | on the peer | on both (sequence numbers then run on across NEWKEYS; the independent decoder follows the recorded
+agreement). The oracle is unchanged: in particular premature-rekey = a KEXINIT of the tested side although neither of
+its current key epochs has reached a threshold on the wire, i.e. the counters did not restart with the new keys.
+Evidence classes strict-kex:*.
+
+step "reqs" (family "coop", authenticated stage): `k` requests of the peer that need an answer from the tested side's
+transport thread - channel opens the application accepts ("open": session / forwarded-tcpip with a handler), opens it
+rejects ("open-rejected"), CHANNEL_REQUEST exec with want_reply on k channels opened before ("chanreq", client peer only) -
+are in flight when the tested side crosses a threshold: the link T->P is held (latency), the tested side sends IGNOREs
+up to the threshold and writes its KEXINIT, k peer threads issue their requests (k = 1-96, clipped below the overflow
+allowance like every peer burst), the tested side handles all of them, then the link is released. Oracle ("traffic
+continues intact"): every caller gets its answer within 12 s (accepted / rejected as the application decided; a
+rejected open may surface as "Unable to open channel." because Transport.open_channel keeps the reason in one slot per
+transport) and the tested side wrote exactly k replies (types 91/92/99/100, counted by the independent decoder); bucket
+peer-request-unanswered:<kind>. Evidence classes note:reqs:<kind>, note:reqs-in-flight-behind-own-kexinit:2^n.
+
 Peer bursts in family "coop" are clipped below the overflow allowance (minus the peer's own kex
 packets): paramiko counts the allowance from the moment it *wants* to rekey, so a cooperative peer
 whose traffic already in flight exceeds the allowance is dropped by design (statement: "If the peer
@@ -64,9 +81,9 @@ THOROUGH_WORKERS = 16
 RULE = (
     "hypothesis-drawn (role, stage authenticated|connected-but-unauthenticated, cipher/MAC class ctr|cbc|gcm|etm, REKEY_PACKETS 20-200, REKEY_BYTES 4-64 KiB, overflow "
     "10-100 packets / 2-32 KiB, traffic program of 4-40 steps {data T->P | P->T | both, IGNORE burst, keepalive idle, IGNOREs to just below the "
-    "threshold then keepalives only; before authentication: IGNORE bursts of either side, keepalives, failed password attempts}) for "
+    "threshold then keepalives only, 1-96 peer requests needing a reply (channel open accepted|rejected, exec want_reply) in flight behind the tested side's threshold KEXINIT on a held link; before authentication: IGNORE bursts of either side, keepalives, failed password attempts}) for "
     "the cooperative family; (role, stage, thresholds, trigger direction in|out, packet pattern, 0-1 completed rekeys first) for the "
-    "refusing-peer family; both families x compression none|zlib|zlib@openssh.com x segmenting inbound link of the tested side (none | "
+    "refusing-peer family; both families x strict kex agreed | strict_kex=False on tested side|peer|both x compression none|zlib|zlib@openssh.com x segmenting inbound link of the tested side (none | "
     "first `cut` 1-80 bytes of a selected packet, idle receive timeout, rest; selected = all | every j-th | those arriving while a "
     "re-key is pending; read cap 1-100 bytes; 2-4 gaps); non-trivial = >= 2 threshold crossings resolved in one session (counted on the wire), or a "
     "refusing peer; distinct by the case dict"
@@ -143,11 +160,14 @@ class Wire:
             out[d.name] = list(d.sent)[:n]
         return ev, out
 
-    def decode(self, tc, ts, snap=None):
-        """{dirname: [(g, epoch, seq, type, payload, length)]}; raises refssh.RefError."""
+    def decode(self, tc, ts, snap=None, only=None):
+        """{dirname: [(g, epoch, seq, type, payload, length)]}; raises refssh.RefError. `only` = a direction name:
+        decode just that direction (pacing polls)."""
         ev, chunks = snap or self.snapshot()
         res = {}
         for d, sender, c2s in ((self.link.ab, tc, True), (self.link.ba, ts, False)):
+            if only is not None and d.name != only:
+                continue
             pos = [i for i, e in enumerate(ev) if e[0] == d.name]
             ch = chunks[d.name]
             pk = ZTap(ch, list(sender.v_out), c2s).packets()
@@ -359,6 +379,26 @@ CIPHERS = {
 }
 
 
+# configuration: was strict key exchange agreed? (`Transport(strict_kex=False)` on the tested side, the peer, or both: the
+# documented way to talk to / be a peer without kex-strict-*-v00@openssh.com; without it the sequence numbers run on
+# across NEWKEYS, everything else the statement says is unchanged)
+STRICTS = ["both", "tested-off", "peer-off", "neither"]
+
+
+def strict_kw(case, who):
+    s = case.get("strict", "both")
+    off = s == "neither" or (s == "tested-off" and who == "T") or (s == "peer-off" and who == "P")
+    return dict(strict_kex=False) if off else {}
+
+
+def strict_classes(case, fam, rekeys):
+    s = case.get("strict", "both")
+    out = ["strict-kex:" + s, "strict-kex:%s:%s" % (fam, "agreed" if s == "both" else "not-agreed")]
+    if rekeys:
+        out.append("strict-kex:%s:%s:rekeys>=1" % (fam, "agreed" if s == "both" else "not-agreed"))
+    return out
+
+
 def install_seglink(case, link, T, role):
     """Install the case's segmenting-link plan on the tested side's inbound direction (None if the case has none)."""
     plan = case.get("frag")
@@ -446,15 +486,17 @@ def run_coop(case):
     comp = case.get("comp", "none")
     link = net.Link()
     wire = Wire(link)
-    kw = dict(packetizer_class=small_packetizer(Packetizer, rp, rb, op, ob))
+    kw = dict(packetizer_class=small_packetizer(Packetizer, rp, rb, op, ob), **strict_kw(case, "T"))
+    pkw_ = strict_kw(case, "P")
     if role == "client":
-        link, tc, ts = peers.make_pair(client_kw=kw, link=link)
+        link, tc, ts = peers.make_pair(client_kw=kw, server_kw=pkw_, link=link)
         T, P = tc, ts
     else:
-        link, tc, ts = peers.make_pair(server_kw=kw, link=link)
+        link, tc, ts = peers.make_pair(client_kw=pkw_, server_kw=kw, link=link)
         T, P = ts, tc
     viol = []
     threads = []
+    kept = []  # channels of "reqs" steps stay referenced (Channel.__del__ closes them)
     stalled = None
     notes = {}
     seg = None
@@ -464,6 +506,7 @@ def run_coop(case):
             t.clear_to_send_timeout = 2 * WAIT
         srv = peers.OpenServer()
         srv.policy["check_auth_password"] = lambda u, p: peers.AUTH_SUCCESSFUL if p == "pw" else peers.AUTH_FAILED
+        srv.policy["check_channel_request"] = lambda kind, chanid: peers.OPEN_SUCCEEDED if kind == "session" else peers.OPEN_FAILED_ADMINISTRATIVELY_PROHIBITED
         ce, se = peers.start_both(tc, ts, srv)
         if ce or se:
             raise core.HarnessError("handshake failed: %r %r" % (ce, se))
@@ -506,6 +549,99 @@ def run_coop(case):
         def expect(side, k, size, start):
             tag = 1 if side == "T" else 2
             return b"".join(pattern(tag, start + i * size, size) for i in range(k))
+
+        def n_kexinit_out(types=(20,)):
+            return sum(1 for r in wire.decode(tc, ts, only=out_dn)[out_dn] if r[3] in types)
+
+        REPLIES = (91, 92, 99, 100)  # CHANNEL_OPEN_CONFIRMATION / _FAILURE, CHANNEL_SUCCESS / _FAILURE
+
+        def peer_requests(rkind, k, si, step):
+            """`k` requests of the peer that need an answer from the tested side's transport thread are in flight when
+            the tested side crosses a threshold: the link T->P is held (latency), so the peer has not seen the KEXINIT
+            when it sends them. Every one of them must be answered once the exchange is over."""
+            from paramiko.ssh_exception import ChannelException
+
+            out_dir, in_dir = (link.ab, link.ba) if role == "client" else (link.ba, link.ab)
+            if rkind == "chanreq" and role == "client":
+                rkind = "open"  # a server has no public call for a channel request that wants a reply
+            pre = []
+            if rkind == "open" and role == "client" and not chans.get("fwd"):
+                T.request_port_forward("127.0.0.1", 4242, handler=lambda ch, o, s_: kept.append(ch))
+                chans["fwd"] = True
+            if rkind == "chanreq":
+                for _ in range(k):
+                    pre.append(P.open_session(timeout=WAIT))
+                kept.extend(pre)
+            if pre or chans.get("fwd"):
+                if settle(link, T, P) != "ok":
+                    return "before the requests of step %d %r" % (si, step)
+            kx0 = n_kexinit_out()
+            rep0 = n_kexinit_out(REPLIES)
+            res = {}
+            ths = []
+            out_dir.set_hold(True)
+            try:
+                guard = 0
+                while not T.packetizer.need_rekey() and guard < rp + rb // 64 + 10:  # pacing via the public accessor
+                    T.send_ignore(32)
+                    guard += 1
+                end = time.time() + WAIT
+                while time.time() < end and T.is_active() and n_kexinit_out() <= kx0:
+                    time.sleep(0.005)
+                if n_kexinit_out() <= kx0:
+                    return None  # the wire oracle reports the unanswered threshold
+                base = len(in_dir.sent)
+
+                def one(i):
+                    try:
+                        if rkind == "open":
+                            if role == "server":
+                                kept.append(P.open_session(timeout=WAIT))
+                            else:
+                                kept.append(P.open_channel("forwarded-tcpip", ("127.0.0.1", 4242), ("10.0.0.1", 50000 + i), timeout=WAIT))
+                            res[i] = "ok"
+                        elif rkind == "open-rejected":
+                            try:
+                                kept.append(P.open_channel("nope@verif", timeout=WAIT))
+                                res[i] = "accepted although the application rejects this kind"
+                            except ChannelException:
+                                res[i] = "ok"
+                            except SSHException as e:
+                                # Transport.open_channel keeps the reason of a rejected open in one slot per transport:
+                                # concurrent rejected callers may find it taken (an artefact of the peer's API, the
+                                # OPEN_FAILURE did arrive: counted on the wire below)
+                                res[i] = "ok" if "Unable to open channel" in str(e) else repr(e)
+                        else:
+                            pre[i].exec_command("true")
+                            res[i] = "ok"
+                    except Exception as e:  # judged below
+                        res[i] = repr(e)
+
+                for i in range(k):
+                    th = threading.Thread(target=one, args=(i,), daemon=True)
+                    ths.append(th)
+                    threads.append(th)
+                    th.start()
+                # every request is on the wire and handled by the tested side before its KEXINIT reaches the peer
+                in_dir.wait_sent(base + k, WAIT)
+                end = time.time() + WAIT
+                while time.time() < end and T.is_active() and not in_dir.idle():
+                    time.sleep(0.003)
+                n_fl = len(in_dir.sent) - base
+                notes["reqs:" + rkind] = notes.get("reqs:" + rkind, 0) + 1
+                notes["reqs-in-flight-behind-own-kexinit:2^%d" % max(n_fl, 1).bit_length()] = n_fl
+            finally:
+                out_dir.set_hold(False)
+            end = time.time() + WAIT + 3
+            for th in ths:
+                th.join(max(0.0, end - time.time()))
+            bad = [(i, res.get(i, "no answer (caller still blocked)")) for i in range(k) if res.get(i) != "ok"]
+            n_rep = n_kexinit_out(REPLIES) - rep0
+            if not bad and n_rep != k and T.is_active():
+                bad = [(0, "%d replies (types %r) written by the tested side for %d requests" % (n_rep, REPLIES, k))]
+            if bad and T.is_active() and P.is_active():  # (a dead session is reported as such by the oracle below)
+                viol.append(("traffic-intact", "peer-request-unanswered:" + rkind, "step %d %r: %d of %d requests the peer had in flight when the tested side sent KEXINIT were not answered correctly after the exchange; first: request %d -> %s; active(T,P)=%r" % (si, step, len(bad), k, bad[0][0], bad[0][1], (T.is_active(), P.is_active()))))
+            return None
 
         def program():
             nonlocal stalled
@@ -586,6 +722,12 @@ def run_coop(case):
                         ka_on = True
                         while time.time() < end and len(link.ab.sent if role == "client" else link.ba.sent) < k0 + gap + 1:
                             time.sleep(0.01)
+                elif kind == "reqs":
+                    kk = clip_peer_burst(step[2], 64, op, ob)
+                    if kk > 0:
+                        stalled = peer_requests(step[1], kk, si, step)
+                        if stalled is not None:
+                            break
                 elif kind == "authfail":
                     # failed password attempts (while AUTH_FINDING is open they only add to the counters: never the crossing packet)
                     for _ in range(step[1]):
@@ -762,8 +904,8 @@ def _run_refuse(case):
     cipher, mac = CIPHERS[case["suite"]]
     link = net.Link()
     wire = Wire(link)
-    kw = dict(packetizer_class=small_packetizer(Packetizer, rp, rb, op, ob))
-    pkw = dict(packetizer_class=RefusingPacketizer)
+    kw = dict(packetizer_class=small_packetizer(Packetizer, rp, rb, op, ob), **strict_kw(case, "T"))
+    pkw = dict(packetizer_class=RefusingPacketizer, **strict_kw(case, "P"))
     if role == "client":
         link, tc, ts = peers.make_pair(client_kw=kw, server_cls=peers.Puppet, server_kw=pkw, link=link)
         T, P = tc, ts
@@ -968,7 +1110,7 @@ def check_case(ctx, case, record=True):
             cls += ["note:" + k for k in r.get("notes", {})]
             comp = case.get("comp", "none")
             cls += ["comp:" + comp, "comp:%s:%s" % (comp, stage)] + (["comp:%s:rekeys>=1" % comp] if r.get("rekeys", 0) >= 1 else [])
-            cls += frag_classes(case, r.get("frag"))
+            cls += frag_classes(case, r.get("frag")) + strict_classes(case, "coop", r.get("rekeys", 0))
             if r.get("notes", {}).get(AUTH_EXCLUDED):
                 ctx.exclude(AUTH_EXCLUDED + " (open finding %s)" % (AUTH_FINDING if AUTH_GUARD[0] else "traffic-intact|coop:" + auth_bucket(case)), r["notes"][AUTH_EXCLUDED])
         else:
@@ -976,6 +1118,7 @@ def check_case(ctx, case, record=True):
             stage = case.get("stage", "auth")
             cls = ["refuse", "role:" + case["role"], "suite:" + case["suite"], "trigger:" + case["trigger"], "pre:%d" % case["pre"], "stage:" + stage, "refuse:%s:%s" % (stage, case["trigger"])]
             cls += ["comp:" + case.get("comp", "none"), "refuse:comp:" + case.get("comp", "none")] + frag_classes(case, r.get("info", {}).get("frag"))
+            cls += strict_classes(case, "refuse", case["pre"])
         ctx.case(case, nt, cls)
     if r["viol"]:
         clause, bucket, detail = r["viol"][0]
@@ -1008,6 +1151,7 @@ def link_plans(draw):
 
 
 comps = st.sampled_from(["none", "none", "zlib", "zlib@openssh.com"])
+stricts = st.sampled_from(["both", "both", "tested-off", "peer-off", "neither"])
 
 
 @st.composite
@@ -1021,6 +1165,8 @@ def coop_cases(draw):
         st.tuples(st.just("ka"), st.sampled_from([20, 50]), st.sampled_from([250, 400])),
     )
     kx = st.tuples(st.just("kx"), st.integers(1, 3), st.sampled_from([20, 50]))
+    # requests of the peer in flight behind the tested side's KEXINIT (clipped below the overflow allowance when run)
+    reqs = st.tuples(st.just("reqs"), st.sampled_from(["open", "open-rejected", "chanreq"]), st.one_of(st.integers(1, 8), st.integers(1, 96), st.integers(24, 96)))
     stage = draw(st.sampled_from(["auth", "auth", "preauth"]))
     if stage == "preauth":
         step = st.one_of(
@@ -1031,12 +1177,13 @@ def coop_cases(draw):
             st.tuples(st.just("authfail"), st.integers(1, 3)),
         )
     else:
-        step = st.one_of(step, step.map(lambda v: v), step.map(lambda v: tuple(v)), kx)
+        step = st.one_of(step, step.map(lambda v: v), step.map(lambda v: tuple(v)), kx, reqs)
     steps = draw(st.lists(step, min_size=4, max_size=16 if stage == "preauth" else 40))
     # keep keepalive idles rare (real time), the total volume bounded, and every step below the
     # 200 KiB window-adjust threshold (at most one WINDOW_ADJUST per step from the receiver)
     kas = 0
     kxs = 0
+    rqs = 0
     fails = 0
     out = []
     vol = 0
@@ -1052,6 +1199,11 @@ def coop_cases(draw):
             if kxs > 2:
                 continue
             vol += rp * 64
+        elif s[0] == "reqs":
+            rqs += 1
+            if rqs > 2:
+                continue
+            vol += rp * 64 + s[2] * 256
         elif s[0] == "authfail":
             # the server ends the session after 10 failed attempts
             s[1] = min(s[1], 8 - fails)
@@ -1077,6 +1229,7 @@ def coop_cases(draw):
         steps=out,
         comp=draw(comps),
         frag=draw(link_plans()),
+        strict=draw(stricts),
     )
 
 
@@ -1100,16 +1253,17 @@ def refuse_cases(draw):
         pattern=[list(p) for p in draw(st.lists(pk, min_size=1, max_size=5))],
         comp=draw(comps),
         frag=draw(link_plans()),
+        strict=draw(stricts),
     )
 
 
 # fixed cases that make the quick tier meaningful whatever the seed: send-heavy idle reader,
 # receive-heavy, byte threshold, repeated crossings
 FIXED = [
-    dict(family="coop", role="client", suite="ctr", rp=25, rb=65536, op=20, ob=8192, steps=[["ign", "T", 30, 10], ["ign", "T", 30, 10], ["ign", "T", 30, 10], ["data", "T", 3, 100]]),
-    dict(family="coop", role="server", suite="etm", rp=200, rb=6000, op=30, ob=8192, steps=[["data", "P", 4, 1000]] * 8 + [["data", "T", 2, 3000]] * 4),
+    dict(family="coop", role="client", suite="ctr", rp=25, rb=65536, op=20, ob=8192, steps=[["ign", "T", 30, 10], ["ign", "T", 30, 10], ["ign", "T", 30, 10], ["data", "T", 3, 100]], strict="tested-off"),
+    dict(family="coop", role="server", suite="etm", rp=200, rb=6000, op=30, ob=8192, steps=[["data", "P", 4, 1000]] * 8 + [["data", "T", 2, 3000]] * 4, strict="peer-off"),
     dict(family="coop", role="client", suite="gcm", rp=30, rb=8192, op=40, ob=16384, steps=[["data", "B", 12, 200]] * 6 + [["data", "P", 20, 1]] * 4),
-    dict(family="refuse", role="client", suite="ctr", rp=20, rb=65536, op=10, ob=32768, trigger="in", pre=1, tsize=10, pattern=[["ign", 8]]),
+    dict(family="refuse", role="client", suite="ctr", rp=20, rb=65536, op=10, ob=32768, trigger="in", pre=1, tsize=10, pattern=[["ign", 8]], strict="neither"),
     dict(family="refuse", role="server", suite="cbc", rp=200, rb=4096, op=100, ob=2048, trigger="out", pre=0, tsize=200, pattern=[["data", 100], ["dbg", 5]]),
     # connected but not authenticated: send-heavy, receive-heavy, keepalive crossing, a long auth dialogue; refusing peer
     dict(family="coop", role="client", stage="preauth", suite="ctr", rp=24, rb=65536, op=40, ob=16384, steps=[["ign", "T", 30, 10], ["authfail", 3], ["ign", "P", 20, 16], ["kx", 2, 20]]),
@@ -1124,6 +1278,9 @@ FIXED = [
     dict(family="coop", role="client", suite="etm", rp=50, rb=6000, op=40, ob=16384, steps=[["data", "T", 4, 1000], ["data", "P", 4, 1000], ["ign", "T", 60, 10], ["data", "B", 3, 2000]], comp="zlib@openssh.com"),
     dict(family="coop", role="client", stage="preauth", suite="ctr", rp=25, rb=65536, op=40, ob=16384, steps=[["ign", "T", 30, 10], ["ign", "P", 20, 16], ["ign", "T", 30, 100]], comp="zlib", frag=dict(cut=1, sel="all", every=1, gaps=3, mss=0)),
     dict(family="refuse", role="server", suite="ctr", rp=30, rb=65536, op=20, ob=32768, trigger="out", pre=1, tsize=20, pattern=[["data", 50], ["ign", 5]], comp="zlib", frag=dict(cut=3, sel="rekey", every=1, gaps=4, mss=0)),
+    # requests of the peer (as many as the overflow allowance permits) in flight behind the tested side's KEXINIT of a threshold exchange
+    dict(family="coop", role="server", suite="ctr", rp=60, rb=65536, op=100, ob=32768, steps=[["reqs", "open", 96], ["data", "B", 10, 100], ["reqs", "chanreq", 40]], strict="neither"),
+    dict(family="coop", role="client", suite="gcm", rp=40, rb=16384, op=100, ob=32768, steps=[["reqs", "open-rejected", 96], ["data", "P", 10, 100], ["reqs", "open", 64]]),
 ]
 
 
@@ -1137,8 +1294,8 @@ def run(ctx):
             if ctx.out_of_time():
                 break
             check_case(ctx, c)
-    n_coop = ctx.scale(24, 260)
-    n_ref = ctx.scale(14, 200)
+    n_coop = ctx.scale(20, 260)
+    n_ref = ctx.scale(12, 200)
     ctx.explore(coop_cases(), lambda c: check_case(ctx, c), n_coop, shrink=False)
     ctx.explore(refuse_cases(), lambda c: check_case(ctx, c), n_ref, shrink=False, seed_offset=1)
 
